@@ -429,3 +429,128 @@ pub fn stats_json(all: &BTreeMap<String, OpStats>) -> Json {
         ))
         .collect::<BTreeMap<_, _>>())
 }
+
+// ---------------------------------------------------------------------------------------------
+// C09: structure independence (E6 traces)
+// ---------------------------------------------------------------------------------------------
+
+use super::ref_eval::Event;
+
+/// First index at which two structural traces differ.
+pub fn first_trace_divergence(a: &[Event], b: &[Event]) -> Option<(usize, String, String)> {
+    let n = a.len().max(b.len());
+    for i in 0..n {
+        if a.get(i) != b.get(i) {
+            return Some((
+                i,
+                a.get(i).map(|e| e.describe()).unwrap_or_else(|| "<end>".into()),
+                b.get(i).map(|e| e.describe()).unwrap_or_else(|| "<end>".into()),
+            ));
+        }
+    }
+    None
+}
+
+/// Structural trace of a stdlib relation with the given (possibly unknown) instance/witness.
+pub fn relation_trace<R: Relation>(
+    rel: &R,
+    k: u32,
+    mbl: u8,
+    instance: Value<R::Instance>,
+    witness: Value<R::Witness>,
+    pi_len_hint: usize,
+    with_values: bool,
+) -> Result<(Vec<Event>, usize), String> {
+    let circuit = MidnightCircuit::new(rel, instance, witness, Some(mbl));
+    // the instance column content is irrelevant for the structure; give zeros of a plausible length
+    let inst = vec![vec![], vec![F::ZERO; pi_len_hint]];
+    let r = catch_any(|| {
+        collect::<F, _>(
+            k,
+            &circuit,
+            &inst,
+            CollectOpts {
+                with_values,
+                record_trace: true,
+            },
+        )
+    });
+    match r {
+        Ok(Ok(t)) => {
+            let n_pi = bound_len(&t, 1);
+            Ok((t.trace, n_pi))
+        }
+        Ok(Err(e)) => Err(e),
+        Err(p) => Err(format!("panic@{}: {}", repo_file(&p.file), p.message)),
+    }
+}
+
+/// C09 for one catalogue operation: the structural trace (regions, selectors, fixed
+/// assignments, copies, positions of advice assignments, instance queries, number of public
+/// inputs) must be the same for the unknown witness and for every concrete input.
+pub fn structure_check<O: OpSpec>(op: &O, inputs: &[O::In], mbl: u8, prop: &str, rep: &mut Report) {
+    let name = op.name();
+    let rel = OpRel(op.clone());
+    let k = match catch_any(|| MidnightCircuit::new(&rel, Value::unknown(), Value::unknown(), Some(mbl)).min_k()) {
+        Ok(k) => k,
+        Err(p) => {
+            rep.inconclusive(&format!("{name}: min_k panicked: {}", p.message));
+            return;
+        }
+    };
+    rep.eval();
+    let base = match relation_trace(&rel, k, mbl, Value::unknown(), Value::unknown(), 0, false) {
+        Ok(x) => x,
+        Err(e) => {
+            rep.violation(
+                &format!("{prop}/{name}/unknown-witness-synthesis-fails"),
+                &format!("synthesis with an unknown witness fails: {e}"),
+                json!({"op": name}),
+            );
+            return;
+        }
+    };
+    // control: same (unknown) input twice must give the same trace, else nondeterminism
+    if let Ok(again) = relation_trace(&rel, k, mbl, Value::unknown(), Value::unknown(), 0, false) {
+        if again.0 != base.0 {
+            rep.inconclusive(&format!("{name}: control run (unknown witness twice) differs — nondeterministic synthesis (C17)"));
+            return;
+        }
+    }
+    for input in inputs {
+        rep.eval();
+        let exp_len = op.reference(input).map(|v| v.len()).unwrap_or(base.1);
+        match relation_trace(&rel, k, mbl, Value::known(vec![F::ZERO; exp_len]), Value::known(input.clone()), exp_len, true) {
+            Err(e) => {
+                // an out-of-domain input may legitimately fail to synthesise
+                if op.reference(input).is_some() {
+                    rep.count(&format!("{name}.known_witness_synthesis_error"));
+                    let _ = e;
+                }
+            }
+            Ok((trace, n_pi)) => {
+                rep.nontrivial(&(name.clone(), fnv(format!("{input:?}").as_bytes())));
+                if n_pi != base.1 {
+                    rep.violation(
+                        &format!("{prop}/{name}/public-input-count-depends-on-witness"),
+                        &format!("number of public inputs is {} with an unknown witness and {n_pi} with a concrete one", base.1),
+                        json!({"op": name, "input": format!("{input:?}")}),
+                    );
+                }
+                if let Some((i, a, b)) = first_trace_divergence(&base.0, &trace) {
+                    rep.violation(
+                        &format!("{prop}/{name}/structure-depends-on-witness"),
+                        &format!("structural trace differs at event {i}: unknown witness: {a} | concrete witness: {b}"),
+                        json!({"op": name, "input": format!("{input:?}"), "event_index": i, "unknown": a, "concrete": b, "k": k}),
+                    );
+                } else {
+                    rep.count_n("structural_events_compared", trace.len() as u64);
+                }
+            }
+        }
+    }
+    if rep.samples.len() < rep.max_samples {
+        rep.sample(json!({"op": name, "k": k, "trace_events": base.0.len(), "public_inputs": base.1, "inputs_compared": inputs.len(),
+                          "first_events": base.0.iter().take(4).map(|e| e.describe()).collect::<Vec<_>>()}));
+    }
+}
